@@ -12,14 +12,15 @@ for pid in sorted(props.PROPS):
     bc = cfg.get("bounded_checks", [])
     if bc:
         meta["text"] = meta["text"] + mm.BOUNDED_PREFIX + "; ".join(mm.BOUNDED[c] for c in bc) + "."
-        meta["technique"] = meta["technique"] + mm.BOUNDED_TECHNIQUE
+        if not cfg.get("bounded_only"):
+            meta["technique"] = meta["technique"] + mm.BOUNDED_TECHNIQUE
     checks.append({
         "property_id": pid,
         "quick_cmd": f"./check {pid} --tier quick",
         "thorough_cmd": f"./check {pid} --tier thorough",
         "evidence_file": f"/verif/evidence/{pid}.json",
         "replay_cmd_template": f"./check {pid} --replay {{path}}",
-        "engine": "verus-contracts",
+        "engine": "bounded-stand-in" if cfg.get("bounded_only") else "verus-contracts",
         "level_claimed": {"category": cfg["level"], "text": meta["text"], "design_ref": meta["design_ref"]},
         "level_note": meta["note"],
         "technique": meta["technique"],
@@ -30,7 +31,7 @@ man = {
     "setup_cmd": "python3 tools/selftest.py",
     "hooks": mm.HOOKS,
     "engines": [
-        {"name": "verus-contracts", "path": "/verif/check", "serves_properties": sorted(props.PROPS),
+        {"name": "verus-contracts", "path": "/verif/check", "serves_properties": sorted(p for p in props.PROPS if not props.PROPS[p].get("bounded_only")),
          "kind_free_text": "contract-based deductive verification: real functions extracted mechanically from /repo/src on every run (tools/extract.py), contracts spliced from units/*.rs, discharged by Verus/z3; Kani/CBMC for leaf functions outside Verus' subset (labelled bounded or complete-by-enumeration)"},
         {"name": "bounded-stand-in", "path": "/verif/bounded", "serves_properties": sorted(p for p in props.PROPS if props.PROPS[p].get("bounded_checks")),
          "kind_free_text": "bounded stand-in / replay harness (Rust crate with a path dependency on /repo, rebuilt on every run): here-and-there evaluator over a window of the standard domain with exact handling of pinned and atom-guarded variables, reference semantics of mini-gringo rules, brute-force stable models, independent TFF reader; drives the library API and the anthem binary; labelled bounded, never counted as proved"},
